@@ -196,6 +196,24 @@ func genC17(r *vc.Run) {
 				pts = append(pts, ol[1])
 			}
 		}
+		// points whose X or Y encoding is shorter than the other (a leading zero byte): the boundary for length-prefixed codecs
+		shortX, shortY := 0, 0
+		for k := int64(3); k < 3000 && (shortX < 2 || shortY < 2); k++ {
+			o, _ := vc.Exec("ec_base_mul", []val.V{val.A(cn), val.I64(k)})
+			ol, ok := o.(val.List)
+			if !ok || len(ol) != 2 {
+				continue
+			}
+			pl := val.AsList(ol[1])
+			lx, ly := len(val.AsInt(pl[0]).Bytes()), len(val.AsInt(pl[1]).Bytes())
+			if lx < ly && shortX < 2 {
+				shortX++
+				pts = append(pts, ol[1])
+			} else if ly < lx && shortY < 2 {
+				shortY++
+				pts = append(pts, ol[1])
+			}
+		}
 		if cn == "ed25519" {
 			pts = append(pts, val.L(val.I64(0), val.I64(1)))
 			pts = append(pts, edTorsion()...)
